@@ -617,6 +617,43 @@ TORCH_OPS: Dict[str, Tuple[str, Callable]] = {
     "clamp_": ("inplace", lambda o, b: o.clamp_(-0.5, 0.5)),
     "copy_": ("inplace", lambda o, b: o.copy_(b) if b is not None and b.shape == o.shape else o.zero_()),
     "add_out": ("out", lambda o, b: torch.add(o, 1.0, out=o)),
+    # ---- second session: more of the dispatcher surface (results share grids/storage with their inputs)
+    "sub_scalar": ("pure", lambda o, b: 1.0 - o),
+    "abs": ("pure", lambda o, b: o.abs()),
+    "mean_dim": ("pure", lambda o, b: o.mean(dim=0, keepdim=True)),
+    "where": ("pure", lambda o, b: torch.where(o > 0, o, torch.zeros_like(o))),
+    "to_dtype": ("pure", lambda o, b: o.to(torch.float64)),
+    "to_same": ("view", lambda o, b: o.to(o.dtype)),
+    "type_as": ("view", lambda o, b: o.type_as(o)),
+    "contiguous": ("view", lambda o, b: o.contiguous()),
+    "stack": ("pure", lambda o, b: torch.stack([o, o], dim=0)),
+    "roll": ("pure", lambda o, b: o.roll(1, -1)),
+    "repeat": ("pure", lambda o, b: o.repeat(*([2] + [1] * (o.ndim - 1)))),
+    "index0": ("view", lambda o, b: o[0]),
+    "index_slice0": ("view", lambda o, b: o[:1]),
+    "index_list": ("pure", lambda o, b: o[[0]]),
+    "narrow": ("view", lambda o, b: o.narrow(0, 0, 1)),
+    "select": ("view", lambda o, b: o.select(0, 0)),
+    "transpose": ("view", lambda o, b: o.transpose(-1, -2)),
+    "permute": ("view", lambda o, b: o.permute(*reversed(range(o.ndim)))),
+    "reshape": ("view", lambda o, b: o.reshape(o.shape)),
+    "view_flat": ("view", lambda o, b: o.view(-1) if o.is_contiguous() else o.reshape(-1)),
+    "expand": ("view", lambda o, b: o.unsqueeze(0).expand(2, *o.shape)),
+    "squeeze": ("view", lambda o, b: o.squeeze()),
+    "unbind": ("view", lambda o, b: o.unbind(0)[0]),
+    "split": ("view", lambda o, b: o.split(1, dim=0)[0]),
+    "chunk": ("view", lambda o, b: o.chunk(2, dim=0)[-1]),
+    "sub_": ("inplace", lambda o, b: o.sub_(0.25)),
+    "div_": ("inplace", lambda o, b: o.div_(2.0)),
+    "fill_": ("inplace", lambda o, b: o.fill_(0.75)),
+    "masked_fill_": ("inplace", lambda o, b: o.masked_fill_(o > 0, 0.0)),
+    "setitem": ("inplace", lambda o, b: o.__setitem__((Ellipsis, 0), 1.0)),
+    "iadd": ("inplace", lambda o, b: o.__iadd__(1.0)),
+    "index_add_view": ("inplace", lambda o, b: o[..., :1].add_(2.0)),
+    "mul_out": ("out", lambda o, b: torch.mul(o, 2.0, out=o)),
+    "clamp_out": ("out", lambda o, b: torch.clamp(o, -1.0, 1.0, out=o)),
+    "neg_out_other": ("out_other", lambda o, b: torch.neg(o, out=b)),
+    "add_out_other": ("out_other", lambda o, b: torch.add(o, 1.0, out=b)),
 }
 
 
@@ -990,8 +1027,14 @@ class FrameWorld:
         other = self.pool.get(op.get("other")) if op.get("other") is not None else None
         if other is not None and not isinstance(other, Tensor):
             other = None
-        mode = "mutate" if cls in ("inplace", "out") else "none"
-        status, result, viol = self.run_op(lambda: fn(obj, other), oid, mode, "torch:" + op["name"], op.get("interrupt") if mode == "none" else None)
+        mode = "mutate" if cls in ("inplace", "out", "out_other") else "none"
+        recv = oid
+        if cls == "out_other":
+            # the destination is the *other* object (same type and shape required by torch); the source must stay as it was
+            if other is None or other is obj or type(other) is not type(obj) or other.shape != obj.shape or other.dtype != obj.dtype:
+                return StepResult("skipped")
+            recv = op.get("other")
+        status, result, viol = self.run_op(lambda: fn(obj, other), recv, mode, "torch:" + op["name"], op.get("interrupt") if mode == "none" else None)
         tag = self.meta[oid]["tag"]
         self.api_note(f"{tag}.torch:{op['name']}", "called" if status == "ok" else status)
         if status == "ok":
@@ -1111,7 +1154,13 @@ class _Gen:
         name = rng.choice(sorted(TORCH_OPS))
         op = {"op": "torch", "h": oid, "name": name}
         others = sorted(k for k, v in self.pool.items() if isinstance(v, Tensor) and k != oid)
-        if others and rng.chance(0.5):
+        if TORCH_OPS[name][0] == "out_other":
+            me = self.pool[oid]
+            match = [k for k in others if type(self.pool[k]) is type(me) and self.pool[k].shape == me.shape and self.pool[k].dtype == me.dtype]
+            if not match:
+                return None
+            op["other"] = rng.choice(match)
+        elif others and rng.chance(0.5):
             op["other"] = rng.choice(others)
         if TORCH_OPS[name][0] in ("pure", "view") and rng.chance(0.6):
             op["out"] = self.alloc()
@@ -1131,7 +1180,7 @@ class FrameEngine:
     props = ("C15",)
 
     def scenario(self, rng: Rng, tier: str, profile: Optional[str]) -> Dict[str, Any]:
-        weights = {"func": 30, "accessor": 22, "readonly": 7, "copy": 10, "inplace": 9, "raw": 7, "torch": 10, "drop": 1}
+        weights = {"func": 30, "accessor": 24, "readonly": 7, "copy": 10, "inplace": 9, "raw": 7, "torch": 16, "drop": 1}
         for k in sorted(weights):
             if rng.chance(0.3):
                 weights[k] *= rng.choice([0.25, 2.5])
